@@ -97,6 +97,8 @@ def check_string(ctx, utils, st, rel, wf, c, old, new):
             sig = "remap_path:%s:raises:%s" % (kind, got[6:])
         elif isinstance(got, str) and got != ideal and ideal.startswith(got) and ideal[len(got)] in "#?":
             sig = "remap_path:%s:truncated-at-fragment-or-query-delimiter" % kind
+        elif isinstance(got, str) and len(got) == len(ideal) and all(a == b or (b == "+" and a == " ") for a, b in zip(got, ideal)):
+            sig = "remap_path:%s:plus-decoded-as-space" % kind
         else:
             sig = "remap_path:%s:differs-from-prefix-replacement" % kind
         ctx.violation(sig, detail, "remap_path(posixpath, %r, %r, %r) = %r, exactly the prefix replaced would be %r" % (
@@ -275,12 +277,12 @@ def _model(ctx, level, deep):
 
 def run(ctx):
     utils = _impl()
-    # 11 symbols.  quick: all six cases up to length 3 (1 464 strings), the plain-path case only at length 4 (14 641);
-    # thorough: all six cases up to length 5 (177 156 strings); VERIF_C32_LEN6=1 adds length 6 for the plain-path case
+    # 12 symbols.  quick: all six cases up to length 3 (1 885 strings), the plain-path case only at length 4 (20 736);
+    # thorough: all six cases up to length 5 (271 453 strings); VERIF_C32_LEN6=1 adds length 6 for the plain-path case
     six = os.environ.get("VERIF_C32_LEN6", "0") == "1"
     level = ctx.pick(4, 6 if six else 5)
     deep = ctx.pick(4, 6 if six else 99)
-    ctx.rule = ("TLC enumerates every relative part over {n / %% 4 1 space : . U(non-ASCII)} and # ? up to length %d (length >= %d: "
+    ctx.rule = ("TLC enumerates every relative part over {n / %% 4 1 space : . U(non-ASCII)} and # ? + up to length %d (length >= %d: "
                 "plain-path kind only) and prints, per (string, field kind, directory pair), the transcribed remap_path, the "
                 "prefix replacement and the round trip; every case is run on the real remap_path (there and back) and compared "
                 "with both; remap_token_value is run on a catalogue of 14 value shapes instantiated with the strings; a case is "
@@ -288,7 +290,7 @@ def run(ctx):
     dirs, rows, shapes = model(ctx, level, deep)
     ctx.exhaustive = True
     st = {"calls": 0, "disagree": 0, "disagree_outside": 0, "disagree_samples": [], "code_better_than_model": 0,
-          "value_calls": 0, "delims": 0}
+          "value_calls": 0, "delims": 0, "plus": 0}
     classes = {}
     pred_mismatch = 0
     nshape = 0
@@ -309,6 +311,8 @@ def run(ctx):
                 classes[(kind, c["cl"])] = classes.get((kind, c["cl"]), 0) + 1
                 if kind == "loc" and ("#" in rel or "?" in rel):
                     st["delims"] += 1
+                if kind in ("path", "loc") and "+" in rel:
+                    st["plus"] += 1
                 # the python rendering of the predicate `Same` must agree with the specification's on the model's results
                 if same(kind, inst(c["m"]), inst(c["i"])) != c["ok"] or same(kind, inst(c["t"]), inst(c["s"])) != c["rok"]:
                     pred_mismatch += 1
@@ -331,6 +335,7 @@ def run(ctx):
     ctx.require(pred_mismatch == 0, "harness predicate `same` disagrees with RemapPath!Same on %d model results" % pred_mismatch)
     ctx.count("strings", len(rows))
     ctx.count("file_urls_with_literal_fragment_or_query_delimiter", st["delims"])
+    ctx.count("names_with_literal_plus", st["plus"])
     ctx.count("cases", ctx.programs)
     ctx.count("remap_path_calls", st["calls"])
     ctx.count("remap_token_value_calls", st["value_calls"])
@@ -347,7 +352,7 @@ def run(ctx):
     # vacuity: every class the statement names must have been enumerated
     ctx.require(classes.get(("path", "percent-sequence-decoded"), 0) > 0 and classes.get(("path", "none"), 0) > 100
                 and classes.get(("locq", "none"), 0) > 10 and classes.get(("http", "none"), 0) > 100 and nshape > 1000
-                and st["delims"] > 10,
+                and st["delims"] > 10 and st["plus"] > 10,
                 "vacuous enumeration: %r" % (classes,))
     ctx.assumptions += [
         "posixpath as path processor; directory names are plain (/old/dir -> /new, /w -> /w/x, /p/q/nn -> /p/s)",
